@@ -13,7 +13,7 @@ from __future__ import absolute_import, division, print_function
 import inspect
 import sys
 from builtins import object
-from numbers import Integral, Number
+from numbers import Integral, Number, Real
 
 from odl.set import Field, LinearSpace, Set
 from odl.set.space import LinearSpaceElement
@@ -862,10 +862,12 @@ class Operator(object):
             return OperatorComp(self, other)
         elif isinstance(other, Number):
             # Left multiplication is more efficient, so we can use this in the
-            # case of linear operator. Operators like `RealPart` on a complex
-            # space are only real-linear: the rewrite is valid only for
-            # scalars that are also scalars of the range.
-            if self.is_linear and other in self.range.field:
+            # case of linear operator. `is_linear` only promises real-linearity
+            # (`RealPart`, `ImagPart` and everything composed with them are
+            # flagged linear), so the rewrite is used for real scalars only;
+            # the scalar must also belong to both fields.
+            if (self.is_linear and isinstance(other, Real) and
+                    other in self.range.field and other in self.domain.field):
                 return other * self
             else:
                 return OperatorRightScalarMult(self, other)
@@ -1833,7 +1835,7 @@ class OperatorRightScalarMult(Operator):
         rn(3).element([ 3.,  3.,  3.])
         """
         # Chain rule ``d -> op'(s * x)(s * d)``. `Operator.__mul__` rewrites
-        # this to ``s * op'(s * x)`` whenever `s` is a scalar of the range.
+        # this to ``s * op'(s * x)`` for real `s`.
         return self.operator.derivative(self.scalar * x) * self.scalar
 
     @property
